@@ -298,6 +298,26 @@ def _rstmts(body: List[ast.stmt], item: str, ind: int, unit: bool = False) -> st
 #     self.num_file_deletions += 1                          let s := { s with numDeletions := s.numDeletions + 1 }
 #     return X / None / True / False / Y.restore_file(file_name=N)
 #     `if <type guard>: raise`, logging, `msg = …`          skipped
+# Round 7 additions (FileSystem.get_file / create_folder / create_file / pre_timestep / setup_for_episode, Folder.remove_all_files):
+#     if <name parameter>: …                                if N != "" then … else …          (truthiness of a str; None is written "")
+#     X = Folder(name=N, sys_log=self.sys_log)              let X : Folder := { id := s.next, name := N } ; s.next + 1   (a fresh uuid)
+#     X = File(name=N, sim_size=…, file_type=…, folder_id=Y.uuid, folder_name=Y.name, sim_root=…, sys_log=…)
+#                                                           let X : File := { id := s.next, name := N } ; s.next + 1     (name kept: no file type given
+#                                                           or the name already carries the extension — the loader model has the general rule)
+#     X = self.create_folder(N)                             let r := fsCreateFolder s N ; s := r.1 ; X := r.2            (the TRANSLATED method)
+#     X = self.get_file(A, B)                               let X := fsGetFile s A B false                               (the TRANSLATED method)
+#     Y.<attr> where Y may be None                          match Y with | none => RAISE | some Y => …                   (AttributeError)
+#     Y.add_file(X, force=force)                            RAISE when folderAddFile Y X force (the TRANSLATED Folder.add_file) raises, else
+#                                                           let s := updFolder s Y.id (fun g => (folderAddFile g X force).getD g)
+#     if self._default_folder_restore_duration is not None: Y.restore_duration = self._default_folder_restore_duration
+#                                                           match s.defaultRestore with | some d => Y := { Y with restoreDuration := d } and, Y being
+#                                                           STORED in self.folders already (one object), the entry is replaced too | none => …
+#     if self._default_folder_scan_duration is not None: Y.scan_duration = …      skipped (ledger: scan duration is not structural)
+#     self.num_file_creations += 1 / = 0, self.num_file_deletions = 0
+#     super().<same method>(…)                              skipped; emit() checks that SimComponent's method body is `pass`
+#     for X in self.folders.values(): X.pre_timestep(timestep)                    skipped; emit() checks Folder/File.pre_timestep are inert
+#     an `if` whose branches are empty once logging is dropped and whose test is a plain name   skipped
+#     return X (folder / file variable)                     (s, X) / (s, some X);  RAISE = (s, none): the state AT the raise is kept
 def _lkw(call: ast.Call, name: str, pos: int):
     for k in call.keywords:
         if k.arg == name:
@@ -305,32 +325,171 @@ def _lkw(call: ast.Call, name: str, pos: int):
     return call.args[pos] if pos < len(call.args) else None
 
 
+def _name_arg(n: ast.AST, env: dict) -> str:
+    """A name argument: a parameter / local of kind name, `<folder or file variable>.name`, or a string literal."""
+    if isinstance(n, ast.Constant) and isinstance(n.value, str):
+        return json.dumps(n.value)
+    if isinstance(n, ast.Name) and (env.get(n.id) in ("name", None)) and not n.id.startswith("@"):
+        return n.id
+    if isinstance(n, ast.Attribute) and n.attr == "name" and isinstance(n.value, ast.Name) and env.get(n.value.id) in ("folder", "file"):
+        return f"{n.value.id}.name"
+    raise Unsupported("name argument " + (_u(n) if n is not None else "<missing>"))
+
+
+def _incl(incl, env: dict) -> str:
+    if incl is None:
+        return "false"
+    if isinstance(incl, ast.Constant) and isinstance(incl.value, bool):
+        return "true" if incl.value else "false"
+    if isinstance(incl, ast.Name) and env.get(incl.id) == "bool":
+        return incl.id
+    raise Unsupported("include_deleted argument " + _u(incl))
+
+
+DICT_GET = {"self.files.get": ("g.files", "file", "folder"), "self.deleted_files.get": ("g.deletedFiles", "file", "folder"),
+            "self.folders.get": ("s.folders", "folder", "fs"), "self.deleted_folders.get": ("s.deletedFolders", "folder", "fs")}
+
+
+def _uuid_arg(n: ast.AST, env: dict) -> str:
+    if isinstance(n, ast.Name) and env.get(n.id) == "uuid":
+        return n.id
+    if isinstance(n, ast.Attribute) and n.attr == "uuid" and isinstance(n.value, ast.Name) and env.get(n.value.id) in ("file", "folder"):
+        return f"{n.value.id}.id"
+    raise Unsupported("uuid argument " + (_u(n) if n is not None else "<missing>"))
+
+
+LEDGER_IFS = ("if self._default_folder_scan_duration is not None:\n    folder.scan_duration = self._default_folder_scan_duration",)
+
+
+def _all_inert(body: List[ast.stmt], env: dict) -> bool:
+    return all(_rskip(b) or isinstance(b, ast.Pass) or _inert(b, env) for b in body)
+
+
+def _inert(st: ast.stmt, env: dict) -> bool:
+    """Statements without structural effect (each shape is exact)."""
+    if isinstance(st, ast.Pass):
+        return True
+    if (isinstance(st, ast.AugAssign) and isinstance(st.target, ast.Attribute) and st.target.attr == "num_access" and isinstance(st.target.value, ast.Name)
+            and env.get(st.target.value.id) == "file" and isinstance(st.op, ast.Add) and _u(st.value) == "1"):
+        return True                                     # ledger (num_access), not structure
+    if (isinstance(st, ast.Assign) and len(st.targets) == 1 and isinstance(st.targets[0], ast.Attribute) and st.targets[0].attr in ("folder_id", "folder_name")
+            and isinstance(st.targets[0].value, ast.Name) and env.get(st.targets[0].value.id) == "file" and isinstance(st.value, ast.Attribute)
+            and isinstance(st.value.value, ast.Name) and env.get(st.value.value.id) == "folder"
+            and st.value.attr == {"folder_id": "uuid", "folder_name": "name"}[st.targets[0].attr]):
+        return True                                     # back reference of a file to its folder: not part of the structure
+    if isinstance(st, ast.If):
+        if _u(st) in LEDGER_IFS:
+            return True
+        t = st.test.operand if isinstance(st.test, ast.UnaryOp) and isinstance(st.test.op, ast.Not) else st.test
+        return isinstance(t, ast.Name) and _all_inert(st.body, env) and _all_inert(st.orelse, env)
+    if isinstance(st, ast.Expr) and isinstance(st.value, ast.Call) and isinstance(st.value.func, ast.Attribute):
+        fn = st.value.func
+        if _u(fn.value) == "super()" and fn.attr == env.get("@method") and fn.attr in SUPER_PASS:
+            return True
+        if _u(st) == "super().__init__(**kwargs)" and env.get("@method") == "__init__":
+            return True            # pydantic field defaults: empty dictionaries, counters 0 (C15_gen_constants), no default durations
+    if (isinstance(st, ast.For) and not st.orelse and isinstance(st.target, ast.Name) and len(st.body) == 1
+            and _u(st.iter) in ("self.folders.values()", "self.files.values()")
+            and _u(st.body[0]) == f"{st.target.id}.pre_timestep(timestep)" and env.get("@method") == "pre_timestep"):
+        return True
+    return False
+
+
+SUPER_PASS = ("pre_timestep", "setup_for_episode")   # emit() checks SimComponent.<these> are `pass`
+INERT_ATTRS = {"Folder.pre_timestep": {"_scanned_this_step"}, "File.pre_timestep": {"num_access"}}
+
+
+def _check_inert_methods() -> None:
+    """SimComponent.pre_timestep / setup_for_episode are `pass`; FileSystemItemABC overrides neither; Folder.pre_timestep and
+    File.pre_timestep only call super, assign constants to non-structural attributes of self and pass the call down to the live files."""
+    from harness.extract.filesystem import FILE, ITEM
+    core = class_def(parse("simulator/core.py"), "SimComponent")
+    for m in SUPER_PASS:
+        b = [x for x in find_method(core, m).body if not (isinstance(x, ast.Expr) and isinstance(x.value, ast.Constant))]
+        if not (len(b) == 1 and isinstance(b[0], ast.Pass)):
+            raise Unsupported(f"SimComponent.{m} is not `pass`")
+    item = class_def(parse(ITEM), "FileSystemItemABC")
+    if any(isinstance(n, ast.FunctionDef) and n.name in SUPER_PASS for n in item.body):
+        raise Unsupported("FileSystemItemABC overrides pre_timestep / setup_for_episode")
+    for key, rel, cn in (("Folder.pre_timestep", FOLDER, "Folder"), ("File.pre_timestep", FILE, "File")):
+        fn = find_method(class_def(parse(rel), cn), "pre_timestep")
+        if [a.arg for a in fn.args.args] != ["self", "timestep"]:
+            raise Unsupported("signature of " + key)
+        for st in fn.body:
+            if _rskip(st) or _inert(st, {"@method": "pre_timestep"}):
+                continue
+            if (isinstance(st, ast.Assign) and len(st.targets) == 1 and isinstance(st.targets[0], ast.Attribute) and _u(st.targets[0].value) == "self"
+                    and st.targets[0].attr in INERT_ATTRS[key] and isinstance(st.value, ast.Constant)):
+                continue
+            raise Unsupported(f"{key}: statement with a possible structural effect: " + _u(st)[:70])
+
+
 def _lstmts(body: List[ast.stmt], kind: str, res: str, env: dict, ind: int) -> str:
     """kind: "folder" (the value is `g`) or "fs" (the value is `s`); res: "optfile" | "optfolder" | "bool" | "unit"."""
     pad = "  " * ind
     V = "g" if kind == "folder" else "s"
-    body = [st for st in body if not _rskip(st)]
+    body = [st for st in body if not (_rskip(st) or _inert(st, env))]
 
     def ret(val: str) -> str:
         return pad + (val if res in ("optfile", "optfolder") else f"({V}, {val})")
     if not body:
         if res == "unit":
             return pad + V
+        if res == "unit!":
+            return pad + f"({V}, true)"
+        if res.startswith("opt"):
+            return pad + "none"            # a method that may answer None falls off the end
         raise Unsupported("falls off the end")
     st, rest = body[0], body[1:]
+    # an attribute of a variable that may be None: AttributeError
+    derefs = sorted({n.value.id for n in ast.walk(st.test if isinstance(st, ast.If) else (st.iter if isinstance(st, ast.For) else st))
+                     if isinstance(n, ast.Attribute) and isinstance(n.value, ast.Name) and env.get(n.value.id) in ("optfile", "optfolder")})
+    RAISE = {"file!": f"({V}, none)", "unit!": f"({V}, false)"}.get(res)
+    if derefs:
+        if RAISE is None:
+            raise Unsupported("attribute of a value that may be None: " + _u(st)[:60])
+        x = derefs[0]
+        return (pad + f"match {x} with\n" + pad + f"| none => {RAISE}\n" + pad + f"| some {x} =>\n"
+                + _lstmts(body, kind, res, dict(env, **{x: env[x][3:]}), ind + 1))
     if isinstance(st, ast.Return):
         v = st.value
         if v is None or (isinstance(v, ast.Constant) and v.value is None):
+            if res == "unit!":
+                return pad + f"({V}, true)"
             return ret("none") if res.startswith("opt") else pad + V
+        if res.startswith("opt") and isinstance(v, ast.Call) and _u(v.func) in DICT_GET and len(v.args) == 1 and not v.keywords:
+            lst, what, k = DICT_GET[_u(v.func)]
+            if k == kind and what == res[3:]:
+                return pad + f"{lst}.find? (fun y => y.id == {_uuid_arg(v.args[0], env)})"
         if isinstance(v, ast.Constant) and isinstance(v.value, bool) and res == "bool":
             return ret("true" if v.value else "false")
         if isinstance(v, ast.Name) and res.startswith("opt") and env.get(v.id) in ("file", "folder"):
             return ret(f"some {v.id}")
+        if isinstance(v, ast.Name) and res == "folder" and env.get(v.id) == "folder":
+            return pad + f"(s, {v.id})"
+        if isinstance(v, ast.Name) and res == "file!" and env.get(v.id) == "file":
+            return pad + f"(s, some {v.id})"
+        if (res == "optfile" and isinstance(v, ast.Call) and isinstance(v.func, ast.Attribute) and v.func.attr == "get_file"
+                and isinstance(v.func.value, ast.Name) and env.get(v.func.value.id) == "folder"):
+            return pad + f"{v.func.value.id}.getFile {_name_arg(_lkw(v, 'file_name', 0), env)} {_incl(_lkw(v, 'include_deleted', 1), env)}"
         if (kind == "fs" and res == "bool" and isinstance(v, ast.Call) and isinstance(v.func, ast.Attribute) and v.func.attr == "restore_file"
                 and isinstance(v.func.value, ast.Name) and env.get(v.func.value.id) == "folder"):
             y, n = v.func.value.id, _lkw(v, "file_name", 0)
             return pad + f"(updFolder s {y}.id (fun g => (g.restoreFile {_u(n)}).1), ({y}.restoreFile {_u(n)}).2)"
         raise Unsupported("return " + _u(st))
+    if isinstance(st, ast.For) and kind == "folder" and _u(st.iter) == "self.files" and isinstance(st.target, ast.Name) and not st.orelse:
+        # `for k in self.files: X = self.files.get(k); X.delete(); self.deleted_files[k] = X` (the last two in either order: one object)
+        k = st.target.id
+        b = [x for x in st.body if not _rskip(x)]
+        if len(b) == 3 and isinstance(b[0], ast.Assign) and isinstance(b[0].targets[0], ast.Name) and _u(b[0].value) in (f"self.files.get({k})", f"self.files[{k}]"):
+            x = b[0].targets[0].id
+            if sorted(_u(z) for z in b[1:]) == sorted([f"{x}.delete()", f"self.deleted_files[{k}] = {x}"]):
+                return (pad + f"let g := {{ g with deletedFiles := g.files.foldl (fun (d : List File) ({x} : File) => dictSet File.id d {x}.delete) g.deletedFiles }}\n"
+                        + _lstmts(rest, kind, res, env, ind))
+        raise Unsupported("loop over self.files: " + _u(st)[:80])
+    if (isinstance(st, ast.Assign) and kind == "folder" and len(st.targets) == 1 and _u(st.targets[0]) == "self.files"
+            and isinstance(st.value, ast.Dict) and not st.value.keys):
+        return pad + "let g := { g with files := [] }\n" + _lstmts(rest, kind, res, env, ind)
     if isinstance(st, ast.For):
         lists = {"self.files.values()": "g.files", "self.deleted_files.values()": "g.deletedFiles",
                  "self.folders.values()": "s.folders", "self.deleted_folders.values()": "s.deletedFolders"}
@@ -366,9 +525,39 @@ def _lstmts(body: List[ast.stmt], kind: str, res: str, env: dict, ind: int) -> s
             none_b, some_b = (list(st.body), list(st.orelse)) if isinstance(t.ops[0], ast.Is) else (list(st.orelse), list(st.body))
             return (pad + f"match {x} with\n" + pad + f"| some {x} =>\n" + _lstmts(some_b + rest, kind, res, dict(env, **{x: env[x][3:]}), ind + 1)
                     + "\n" + pad + "| none =>\n" + _lstmts(none_b + rest, kind, res, env, ind + 1))
+        # `if self._default_folder_restore_duration is not None: Y.restore_duration = self._default_folder_restore_duration`
+        if _u(t) == "self._default_folder_restore_duration is not None" and kind == "fs" and not st.orelse and len(st.body) == 1:
+            a = st.body[0]
+            if not (isinstance(a, ast.Assign) and len(a.targets) == 1 and isinstance(a.targets[0], ast.Attribute)
+                    and a.targets[0].attr == "restore_duration" and isinstance(a.targets[0].value, ast.Name)
+                    and env.get(a.targets[0].value.id) == "folder" and _u(a.value) == "self._default_folder_restore_duration"):
+                raise Unsupported("under the default restore duration: " + _u(a))
+            y = a.targets[0].value.id
+            upd = f"let {y} := {{ {y} with restoreDuration := d }}\n"
+            if y in env.get("@stored", ()):
+                upd += pad + f"  let s := {{ s with folders := dictSet Folder.id s.folders {y} }}\n"
+            elif y in env.get("@fromfs", ()):
+                upd += pad + f"  let s := updFolder s {y}.id (fun g => {{ g with restoreDuration := d }})\n"
+            return (pad + "match s.defaultRestore with\n" + pad + "| some d =>\n" + pad + "  " + upd + _lstmts(rest, kind, res, env, ind + 1) + "\n"
+                    + pad + "| none =>\n" + _lstmts(rest, kind, res, env, ind + 1))
+        # `if Y.get_file(N) is [not] None:` on a folder variable
+        if (isinstance(t, ast.Compare) and isinstance(t.ops[0], (ast.Is, ast.IsNot)) and isinstance(t.comparators[0], ast.Constant)
+                and t.comparators[0].value is None and isinstance(t.left, ast.Call) and isinstance(t.left.func, ast.Attribute)
+                and t.left.func.attr == "get_file" and isinstance(t.left.func.value, ast.Name) and env.get(t.left.func.value.id) == "folder"):
+            c0 = t.left
+            cond = f"({c0.func.value.id}.getFile {_name_arg(_lkw(c0, 'file_name', 0), env)} {_incl(_lkw(c0, 'include_deleted', 1), env)}).isSome"
+            some_b, none_b = (list(st.body), list(st.orelse)) if isinstance(t.ops[0], ast.IsNot) else (list(st.orelse), list(st.body))
+            return (pad + f"if {cond} then\n" + _lstmts(some_b + rest, kind, res, env, ind + 1) + "\n" + pad + "else\n"
+                    + _lstmts(none_b + rest, kind, res, env, ind + 1))
         neg = isinstance(t, ast.UnaryOp) and isinstance(t.op, ast.Not)
         core = t.operand if neg else t
         yes, no = (list(st.orelse), list(st.body)) if neg else (list(st.body), list(st.orelse))
+        if kind == "fs" and _u(core) == "self.folders":          # truthiness of the dict of live folders
+            return (pad + "if !s.folders.isEmpty then\n" + _lstmts(yes + rest, kind, res, env, ind + 1) + "\n" + pad + "else\n"
+                    + _lstmts(no + rest, kind, res, env, ind + 1))
+        if isinstance(core, ast.Name) and env.get(core.id) == "name":
+            return (pad + f"if {core.id} != \"\" then\n" + _lstmts(yes + rest, kind, res, env, ind + 1) + "\n" + pad + "else\n"
+                    + _lstmts(no + rest, kind, res, env, ind + 1))
         if isinstance(core, ast.Name) and env.get(core.id) == "bool":
             return (pad + f"if {core.id} then\n" + _lstmts(yes + rest, kind, res, env, ind + 1) + "\n" + pad + "else\n"
                     + _lstmts(no + rest, kind, res, env, ind + 1))
@@ -386,19 +575,83 @@ def _lstmts(body: List[ast.stmt], kind: str, res: str, env: dict, ind: int) -> s
     if isinstance(st, ast.Assign) and len(st.targets) == 1 and isinstance(st.targets[0], ast.Name) and isinstance(st.value, ast.Call):
         x, c = st.targets[0].id, st.value
         f = _u(c.func)
+        if f in DICT_GET and DICT_GET[f][2] == kind and len(c.args) == 1 and not c.keywords:
+            lst, what, _k = DICT_GET[f]
+            return (pad + f"let {x} := {lst}.find? (fun y => y.id == {_uuid_arg(c.args[0], env)})\n"
+                    + _lstmts(rest, kind, res, dict(env, **{x: "opt" + what}), ind))
+        if isinstance(c.func, ast.Attribute) and c.func.attr == "get_file_by_id" and isinstance(c.func.value, ast.Name):
+            y = c.func.value.id
+            if (y == "self" and kind == "folder") or env.get(y) == "folder":
+                tgt = "g" if y == "self" else y
+                return (pad + f"let {x} := folderGetFileById {tgt} {_uuid_arg(_lkw(c, 'file_uuid', 0), env)} {_incl(_lkw(c, 'include_deleted', 1), env)}\n"
+                        + _lstmts(rest, kind, res, dict(env, **{x: "optfile"}), ind))
+        if kind == "fs" and f == "self.get_folder_by_id":
+            e2 = dict(env, **{x: "optfolder"})
+            e2["@fromfs"] = tuple(env.get("@fromfs", ())) + (x,)
+            return (pad + f"let {x} := fsGetFolderById s {_uuid_arg(_lkw(c, 'folder_uuid', 0), env)} {_incl(_lkw(c, 'include_deleted', 1), env)}\n"
+                    + _lstmts(rest, kind, res, e2, ind))
+        if kind == "fs" and f == "File" and any(k.arg is None for k in c.keywords):
+            kws = {k.arg: k.value for k in c.keywords}
+            star = kws.get(None)
+            want = "model_dump(exclude={'uuid', 'folder_id', 'folder_name', 'sim_path'})"
+            y = kws.get("folder_id")
+            if not (not c.args and set(kws) == {"folder_id", "folder_name", None} and isinstance(star, ast.Call) and isinstance(star.func, ast.Attribute)
+                    and isinstance(star.func.value, ast.Name) and env.get(star.func.value.id) == "file"
+                    and _u(star) == f"{star.func.value.id}.{want}"
+                    and isinstance(y, ast.Attribute) and y.attr == "uuid" and isinstance(y.value, ast.Name) and env.get(y.value.id) == "folder"
+                    and _u(kws["folder_name"]) == f"{y.value.id}.name"):
+                raise Unsupported("File copy constructor " + _u(c))
+            z = star.func.value.id
+            return (pad + f"let {x} : File := {{ {z} with id := s.next }}\n" + pad + "let s := { s with next := s.next + 1 }\n"
+                    + _lstmts(rest, kind, res, dict(env, **{x: "file"}), ind))
+        if kind == "fs" and f == "Folder":
+            kws = {k.arg: k.value for k in c.keywords}
+            if c.args or set(kws) != {"name", "sys_log"} or _u(kws["sys_log"]) != "self.sys_log":
+                raise Unsupported("Folder constructor " + _u(c))
+            e2 = dict(env, **{x: "folder"})
+            e2["@stored"] = tuple(v for v in env.get("@stored", ()) if v != x)
+            e2["@fromfs"] = tuple(v for v in env.get("@fromfs", ()) if v != x)
+            return (pad + f"let {x} : Folder := {{ id := s.next, name := {_name_arg(kws['name'], env)} }}\n"
+                    + pad + "let s := { s with next := s.next + 1 }\n" + _lstmts(rest, kind, res, e2, ind))
+        if kind == "fs" and f == "File":
+            kws = {k.arg: k.value for k in c.keywords}
+            if c.args or set(kws) != {"name", "sim_size", "file_type", "folder_id", "folder_name", "sim_root", "sys_log"}:
+                raise Unsupported("File constructor " + _u(c))
+            y = kws["folder_id"]
+            if not (isinstance(y, ast.Attribute) and y.attr == "uuid" and isinstance(y.value, ast.Name) and env.get(y.value.id) == "folder"
+                    and _u(kws["folder_name"]) == f"{y.value.id}.name"):
+                raise Unsupported("File constructor: owner " + _u(c))
+            return (pad + f"let {x} : File := {{ id := s.next, name := {_name_arg(kws['name'], env)} }}\n"
+                    + pad + "let s := { s with next := s.next + 1 }\n" + _lstmts(rest, kind, res, dict(env, **{x: "file"}), ind))
+        if kind == "fs" and f == "self.create_folder":
+            n = _lkw(c, "folder_name", 0)
+            e2 = dict(env, **{x: "folder"})
+            e2["@fromfs"] = tuple(env.get("@fromfs", ())) + (x,)
+            return (pad + f"let r := fsCreateFolder s {_name_arg(n, env)}\n" + pad + "let s := r.1\n" + pad + f"let {x} := r.2\n"
+                    + _lstmts(rest, kind, res, e2, ind))
+        if kind == "fs" and f == "self.get_file":
+            a, b, i = _lkw(c, "folder_name", 0), _lkw(c, "file_name", 1), _lkw(c, "include_deleted", 2)
+            return (pad + f"let {x} := fsGetFile s {_name_arg(a, env)} {_name_arg(b, env)} {_incl(i, env)}\n"
+                    + _lstmts(rest, kind, res, dict(env, **{x: "optfile"}), ind))
         incl = _lkw(c, "include_deleted", 1)
-        inc = "false" if incl is None else ("true" if (isinstance(incl, ast.Constant) and incl.value) else None)
-        if inc is None:
-            raise Unsupported("include_deleted argument " + _u(c))
+        inc = _incl(incl, env)
         if kind == "fs" and f == "self.get_folder":
             n = _lkw(c, "folder_name", 0)
-            return pad + f"let {x} := getFolder s {_u(n)} {inc}\n" + _lstmts(rest, kind, res, dict(env, **{x: "optfolder"}), ind)
+            e2 = dict(env, **{x: "optfolder"})
+            e2["@fromfs"] = tuple(env.get("@fromfs", ())) + (x,)
+            return pad + f"let {x} := getFolder s {_name_arg(n, env)} {inc}\n" + _lstmts(rest, kind, res, e2, ind)
         if isinstance(c.func, ast.Attribute) and c.func.attr == "get_file" and isinstance(c.func.value, ast.Name) and env.get(c.func.value.id) == "folder":
             n = _lkw(c, "file_name", 0)
-            return pad + f"let {x} := {c.func.value.id}.getFile {_u(n)} {inc}\n" + _lstmts(rest, kind, res, dict(env, **{x: "optfile"}), ind)
+            return pad + f"let {x} := {c.func.value.id}.getFile {_name_arg(n, env)} {inc}\n" + _lstmts(rest, kind, res, dict(env, **{x: "optfile"}), ind)
         raise Unsupported("assignment " + _u(st))
     if isinstance(st, ast.AugAssign) and kind == "fs" and _u(st.target) == "self.num_file_deletions" and isinstance(st.op, ast.Add) and _u(st.value) == "1":
         return pad + "let s := { s with numDeletions := s.numDeletions + 1 }\n" + _lstmts(rest, kind, res, env, ind)
+    if isinstance(st, ast.AugAssign) and kind == "fs" and _u(st.target) == "self.num_file_creations" and isinstance(st.op, ast.Add) and _u(st.value) == "1":
+        return pad + "let s := { s with numCreations := s.numCreations + 1 }\n" + _lstmts(rest, kind, res, env, ind)
+    if (isinstance(st, ast.Assign) and kind == "fs" and len(st.targets) == 1 and _u(st.targets[0]) in ("self.num_file_creations", "self.num_file_deletions")
+            and isinstance(st.value, ast.Constant) and type(st.value.value) is int and st.value.value >= 0):
+        fld = "numCreations" if _u(st.targets[0]).endswith("creations") else "numDeletions"
+        return pad + f"let s := {{ s with {fld} := {st.value.value} }}\n" + _lstmts(rest, kind, res, env, ind)
     if isinstance(st, ast.Assign) and kind == "folder" and len(st.targets) == 1 and isinstance(st.targets[0], ast.Subscript):
         tgt = st.targets[0]
         if (_u(tgt.value) == "self.deleted_files" and isinstance(st.value, ast.Name) and _u(tgt.slice) == f"{st.value.id}.uuid"
@@ -410,7 +663,10 @@ def _lstmts(body: List[ast.stmt], kind: str, res: str, env: dict, ind: int) -> s
         tgt = st.targets[0]
         d = {"self.folders": "folders", "self.deleted_folders": "deletedFolders"}.get(_u(tgt.value))
         if d and isinstance(st.value, ast.Name) and env.get(st.value.id) == "folder" and _u(tgt.slice) == f"{st.value.id}.uuid":
-            return pad + f"let s := {{ s with {d} := dictSet Folder.id s.{d} {st.value.id} }}\n" + _lstmts(rest, kind, res, env, ind)
+            e2 = dict(env)
+            if d == "folders":
+                e2["@stored"] = tuple(env.get("@stored", ())) + (st.value.id,)
+            return pad + f"let s := {{ s with {d} := dictSet Folder.id s.{d} {st.value.id} }}\n" + _lstmts(rest, kind, res, e2, ind)
         raise Unsupported("store " + _u(st))
     if kind == "fs" and isinstance(st, ast.Expr) and isinstance(st.value, ast.Call):
         c = st.value
@@ -427,6 +683,18 @@ def _lstmts(body: List[ast.stmt], kind: str, res: str, env: dict, ind: int) -> s
                     "remove_all_files": f"{x}.removeAllFiles"}.get(c.func.attr)
             if call:
                 return pad + f"let {x} := {call}\n" + _lstmts(rest, kind, res, env, ind)
+        if (isinstance(c.func, ast.Attribute) and c.func.attr == "add_file" and isinstance(c.func.value, ast.Name) and env.get(c.func.value.id) == "folder"
+                and RAISE is not None):
+            y, fa, fo_ = c.func.value.id, _lkw(c, "file", 0), _lkw(c, "force", 1)
+            if not (isinstance(fa, ast.Name) and env.get(fa.id) == "file"):
+                raise Unsupported("add_file argument " + _u(c))
+            frc = "false" if fo_ is None else (fo_.id if isinstance(fo_, ast.Name) and env.get(fo_.id) == "bool" else
+                                               ("true" if isinstance(fo_, ast.Constant) and fo_.value is True else
+                                                ("false" if isinstance(fo_, ast.Constant) and fo_.value is False else None)))
+            if frc is None:
+                raise Unsupported("add_file force " + _u(c))
+            return (pad + f"match folderAddFile {y} {fa.id} {frc} with\n" + pad + f"| none => {RAISE}\n" + pad + "| some _ =>\n"
+                    + pad + f"  let s := updFolder s {y}.id (fun g => (folderAddFile g {fa.id} {frc}).getD g)\n" + _lstmts(rest, kind, res, env, ind + 1))
         if f == "self._folder_request_manager.add_request":
             nm, rt = _lkw(c, "name", 0), _lkw(c, "request_type", 1)
             if (isinstance(nm, ast.Attribute) and nm.attr == "name" and env.get(_u(nm.value)) == "folder" and isinstance(rt, ast.Call)
@@ -438,8 +706,33 @@ def _lstmts(body: List[ast.stmt], kind: str, res: str, env: dict, ind: int) -> s
         f = _u(c.func)
         if kind == "folder" and f == "self.files.pop" and len(c.args) == 1 and isinstance(c.args[0], ast.Attribute) and c.args[0].attr == "uuid":
             return pad + f"let g := {{ g with files := dictPop File.id g.files {_u(c.args[0].value)}.id }}\n" + _lstmts(rest, kind, res, env, ind)
-        if kind == "folder" and f == "self.remove_file" and len(c.args) == 1 and isinstance(c.args[0], ast.Name):
-            return pad + f"let g := g.removeFile {c.args[0].id}\n" + _lstmts(rest, kind, res, env, ind)
+        if kind == "folder" and f == "self.remove_file" and isinstance(_lkw(c, "file", 0), ast.Name) and len(c.args) + len(c.keywords) == 1:
+            x = _lkw(c, "file", 0).id
+            if env.get(x) == "optfile":          # remove_file(None) raises (its type guard)
+                if RAISE is None:
+                    raise Unsupported("remove_file of a value that may be None")
+                return (pad + f"match {x} with\n" + pad + f"| none => {RAISE}\n" + pad + f"| some {x} =>\n" + pad + f"  let g := g.removeFile {x}\n"
+                        + _lstmts(rest, kind, res, dict(env, **{x: "file"}), ind + 1))
+            if env.get(x) != "file":
+                raise Unsupported("remove_file argument " + _u(c))
+            return pad + f"let g := g.removeFile {x}\n" + _lstmts(rest, kind, res, env, ind)
+        if (kind == "fs" and isinstance(c.func, ast.Attribute) and c.func.attr == "pop" and isinstance(c.func.value, ast.Attribute)
+                and c.func.value.attr == "files" and isinstance(c.func.value.value, ast.Name) and env.get(c.func.value.value.id) == "folder"
+                and len(c.args) == 1 and not c.keywords and RAISE is not None):
+            y, k = c.func.value.value.id, _uuid_arg(c.args[0], env)
+            # dict.pop(k) without a default raises KeyError for a missing key. The folder object is mutated IN the file system: every folder
+            # variable is read again from the state afterwards (a variable denotes the object of that uuid; an object not stored keeps its value)
+            rebind = "".join(pad + f"  let {v} := (findFolderById s {v}.id).getD {v}\n" for v, kd in env.items() if kd == "folder" and not v.startswith("@"))
+            return (pad + f"if !({y}.files.any (fun y => y.id == {k})) then {RAISE} else\n"
+                    + pad + f"  let s := updFolder s {y}.id (fun g => {{ g with files := dictPop File.id g.files {k} }})\n" + rebind
+                    + _lstmts(rest, kind, res, env, ind + 1))
+        if kind == "fs" and f == "self.create_folder" and len(c.args) + len(c.keywords) == 1:
+            return pad + f"let s := (fsCreateFolder s {_name_arg(_lkw(c, 'folder_name', 0), env)}).1\n" + _lstmts(rest, kind, res, env, ind)
+        if kind == "fs" and f == "self.delete_file" and not c.args and {k.arg for k in c.keywords} == {"folder_name", "file_name"}:
+            return (pad + f"let s := (fsDeleteFile s {_name_arg(_lkw(c, 'folder_name', 0), env)} {_name_arg(_lkw(c, 'file_name', 1), env)}).1\n"
+                    + _lstmts(rest, kind, res, env, ind))
+        if kind == "fs" and f == "self.delete_folder" and not c.args and {k.arg for k in c.keywords} == {"folder_name"}:
+            return pad + f"let s := (fsDeleteFolder s {_name_arg(_lkw(c, 'folder_name', 0), env)}).1\n" + _lstmts(rest, kind, res, env, ind)
         if (kind == "fs" and isinstance(c.func, ast.Attribute) and c.func.attr == "remove_file" and isinstance(c.func.value, ast.Name)
                 and env.get(c.func.value.id) == "folder" and len(c.args) == 1 and isinstance(c.args[0], ast.Name)):
             return (pad + f"let s := updFolder s {c.func.value.id}.id (fun g => g.removeFile {c.args[0].id})\n" + _lstmts(rest, kind, res, env, ind))
@@ -447,18 +740,489 @@ def _lstmts(body: List[ast.stmt], kind: str, res: str, env: dict, ind: int) -> s
     raise Unsupported("statement " + _u(st)[:80])
 
 
+
+# ---------------------------------------------------------------------------------------------- structurally inert methods + the tick
+# A method is STRUCTURALLY INERT when, syntactically, it (a) assigns only to local names and to `self.<attr>` with attr in a whitelist of
+# non-structural attributes, (b) calls only whitelisted callees (each itself inert or translated with an unchanged structural part), (c) has no
+# raise / del / with / try / lambda, and (d) iterates only over `self.files` (keys, values or items). Everything structural — `files`,
+# `deleted_files`, `deleted`, `restore_countdown`, the request managers, `folders`, `deleted_folders` — can then not be written.
+NONSTRUCT = {"scan_countdown", "red_scan_countdown", "health_status", "visible_health_status", "_scanned_this_step", "revealed_to_red", "num_access"}
+INERT_CALLS = {"self.get_file_by_id", "file.scan", "file.repair", "file.corrupt", "file.reveal_to_red", "FileSystemItemHealthStatus", "max",
+               "self.files.values", "warnings.warn"}
+INERT_METHODS = [  # (file constant name, class, method, extra allowed callees)
+    ("FOLDER", "Folder", "_scan_timestep", ()), ("FOLDER", "Folder", "_reveal_to_red_timestep", ()), ("FILE", "File", "reveal_to_red", ()),
+    ("FILE", "File", "apply_timestep", ("super().apply_timestep", "super")),
+    # the folder-level health verbs: loops over the live files calling the (translated) file verbs; their ANSWER is tied by the guard table
+    # (`C15_gen_guards`: False for a deleted folder, True otherwise), their structural inertness here
+    ("FOLDER", "Folder", "scan", ()), ("FOLDER", "Folder", "repair", ()), ("FOLDER", "Folder", "corrupt", ()), ("FOLDER", "Folder", "reveal_to_red", ()),
+]
+
+
+def _assert_inert(fn: ast.FunctionDef, where: str, extra=()) -> None:
+    for n in ast.walk(fn):
+        if isinstance(n, (ast.Raise, ast.Delete, ast.With, ast.Try, ast.Lambda, ast.Global, ast.Nonlocal, ast.Await, ast.Yield, ast.YieldFrom,
+                          ast.FunctionDef, ast.ClassDef)) and n is not fn:
+            raise Unsupported(f"{where}: {type(n).__name__} in a method taken to be structurally inert")
+        if isinstance(n, (ast.Assign, ast.AugAssign, ast.AnnAssign)):
+            for t in (n.targets if isinstance(n, ast.Assign) else [n.target]):
+                ok = isinstance(t, ast.Name) or (isinstance(t, ast.Attribute) and _u(t.value) == "self" and t.attr in NONSTRUCT)
+                if not ok:
+                    raise Unsupported(f"{where}: writes {_u(t)} (not in the non-structural whitelist)")
+        if isinstance(n, ast.Call):
+            f = _u(n.func)
+            if not (f in INERT_CALLS or f in extra or f.startswith(("self.sys_log.", "_LOGGER."))):
+                raise Unsupported(f"{where}: calls {f} (not known to be structurally inert)")
+        if isinstance(n, (ast.For, ast.comprehension)) and _u(n.iter) not in ("self.files", "self.files.values()", "self.files.items()"):
+            raise Unsupported(f"{where}: iterates over {_u(n.iter)}")
+        if isinstance(n, ast.NamedExpr):
+            raise Unsupported(f"{where}: walrus assignment")
+
+
+def _tick_methods() -> List[str]:
+    from harness.extract.filesystem import FILE, FS, ITEM
+    rels = {"FOLDER": FOLDER, "FILE": FILE}
+    for relname, cn, m, extra in INERT_METHODS:
+        _assert_inert(find_method(class_def(parse(rels[relname]), cn), m), f"{cn}.{m}", extra)
+    core = class_def(parse("simulator/core.py"), "SimComponent")
+    b = [x for x in find_method(core, "apply_timestep").body if not (isinstance(x, ast.Expr) and isinstance(x.value, ast.Constant))]
+    if not (len(b) == 1 and isinstance(b[0], ast.Pass)):
+        raise Unsupported("SimComponent.apply_timestep is not `pass`")
+    item = class_def(parse(ITEM), "FileSystemItemABC")
+    if any(isinstance(n, ast.FunctionDef) and n.name == "apply_timestep" for n in item.body):
+        raise Unsupported("FileSystemItemABC overrides apply_timestep")
+    for m in ("scan", "reveal_to_red"):
+        fn = find_method(class_def(parse(FS), "FileSystem"), m)
+        b = [st for st in fn.body if not _rskip(st)]
+        if not (len(b) == 1 and isinstance(b[0], ast.For) and isinstance(b[0].target, ast.Name) and not b[0].orelse and len(b[0].body) == 1
+                and (_u(b[0].iter), _u(b[0].body[0])) in (("self.folders", f"self.folders[{b[0].target.id}].{m}(instant_scan=instant_scan)"),
+                                                           ("self.folders.values()", f"{b[0].target.id}.{m}(instant_scan=instant_scan)"))):
+            raise Unsupported(f"FileSystem.{m}: not a plain loop over the live folders calling Folder.{m}")
+    # Folder.apply_timestep onto FolderRec
+    fo = find_method(class_def(parse(FOLDER), "Folder"), "apply_timestep")
+    if [a.arg for a in fo.args.args] != ["self", "timestep"]:
+        raise Unsupported("signature of Folder.apply_timestep")
+    L = ["/-- `Folder.apply_timestep`, translated statement by statement onto `FolderRec` (the scan / reveal steps and the files' own",
+         "`apply_timestep` are checked to be structurally inert by the extractor and dropped) -/",
+         "def folderApplyTimestep (r : FolderRec) : FolderRec :="]
+    inert_self = {f"self.{m}()" for _, cn, m, _ in INERT_METHODS if cn == "Folder"}
+    for st in fo.body:
+        if _rskip(st):
+            continue
+        u = _u(st)
+        if u == "super().apply_timestep(timestep=timestep)" or u in inert_self:
+            continue
+        if u == "self._restoring_timestep()":
+            L.append("  let r := folderRestoringTimestep r")
+            continue
+        if (isinstance(st, ast.For) and _u(st.iter) == "self.files" and isinstance(st.target, ast.Name) and len(st.body) == 1 and not st.orelse
+                and _u(st.body[0]) == f"self.files[{st.target.id}].apply_timestep(timestep=timestep)"):
+            continue
+        raise Unsupported("Folder.apply_timestep: " + u[:80])
+    L += ["  r", ""]
+    # FileSystem.apply_timestep: every LIVE folder, each on its own object
+    fs = find_method(class_def(parse(FS), "FileSystem"), "apply_timestep")
+    if [a.arg for a in fs.args.args] != ["self", "timestep"]:
+        raise Unsupported("signature of FileSystem.apply_timestep")
+    L += ["/-- `FileSystem.apply_timestep`, translated: the loop over the LIVE folders (a folder's tick touches only that folder; its structural",
+          "result does not depend on its health: `C15_restoring_timestep_ignores_health`) -/", "def fsApplyTimestep (s : State) : State :="]
+    for st in fs.body:
+        if _rskip(st):
+            continue
+        u = _u(st)
+        if u == "super().apply_timestep(timestep=timestep)":
+            continue
+        if isinstance(st, ast.For) and isinstance(st.target, ast.Name) and len(st.body) == 1 and not st.orelse:
+            k = st.target.id
+            if (_u(st.iter), _u(st.body[0])) in (("self.folders", f"self.folders[{k}].apply_timestep(timestep=timestep)"),
+                                                 ("self.folders.values()", f"{k}.apply_timestep(timestep=timestep)")):
+                L.append("  let s := { s with folders := s.folders.map (fun g => (folderApplyTimestep { g := g }).g) }")
+                continue
+        raise Unsupported("FileSystem.apply_timestep: " + u[:80])
+    L += ["  s", ""]
+    return L
+
+
+# ---------------------------------------------------------------------------------------------- describe_state
+# `describe_state` of FileSystem / Folder onto the model's `Desc` / `FolderDesc` (the structural part of the report):
+#     state = super().describe_state()                                           (folder: id := g.id — emit() checks that the chain
+#                                                                                 FileSystemItemABC → SimComponent puts `uuid: self.uuid` in)
+#     state[K] = {X.name: X.describe_state() for X in self.<dict>.values()}      <field K> := pyDict (<list>.map fun X => (X.name, D X))
+#     state[K] = {X.name: X.describe_state() for _, X in self.<dict>.items()}    (the same)       D folder = folderDescribeState, D file = its uuid
+#     state[K] = self.num_file_creations / self.num_file_deletions               numCreations / numDeletions := …
+#     state[K] = self._scanned_this_step                                         skipped (not structural)
+#     return state
+DESC_FIELDS = {"FileSystem": {"folders": "folders", "deleted_folders": "deletedFolders", "num_file_creations": "numCreations",
+                              "num_file_deletions": "numDeletions"},
+               "Folder": {"files": "files", "deleted_files": "deletedFiles"}}
+DESC_SKIP = {"Folder": {"scanned_this_step": "self._scanned_this_step"}, "FileSystem": {}}
+DESC_LISTS = {"FileSystem": {"self.folders": "s.folders", "self.deleted_folders": "s.deletedFolders"},
+              "Folder": {"self.files": "g.files", "self.deleted_files": "g.deletedFiles"}}
+
+
+def _describe(cn: str, fn: ast.FunctionDef) -> List[str]:
+    if [a.arg for a in fn.args.args] != ["self"]:
+        raise Unsupported(f"signature of {cn}.describe_state")
+    body = [st for st in fn.body if not _rskip(st)]
+    if not (len(body) >= 2 and _u(body[0]) == "state = super().describe_state()" and _u(body[-1]) == "return state"):
+        raise Unsupported(f"{cn}.describe_state: frame")
+    fields = {}
+    for st in body[1:-1]:
+        if not (isinstance(st, ast.Assign) and len(st.targets) == 1 and isinstance(st.targets[0], ast.Subscript) and _u(st.targets[0].value) == "state"
+                and isinstance(st.targets[0].slice, ast.Constant) and isinstance(st.targets[0].slice.value, str)):
+            raise Unsupported(f"{cn}.describe_state: " + _u(st)[:70])
+        key, v = st.targets[0].slice.value, st.value
+        if key in DESC_SKIP[cn] and _u(v) == DESC_SKIP[cn][key]:
+            continue
+        fld = DESC_FIELDS[cn].get(key)
+        if fld is None or fld in fields:
+            raise Unsupported(f"{cn}.describe_state: key {key!r}")
+        if isinstance(v, ast.DictComp) and len(v.generators) == 1 and not v.generators[0].ifs:
+            gen = v.generators[0]
+            it, tgt = _u(gen.iter), gen.target
+            if it.endswith(".values()") and isinstance(tgt, ast.Name):
+                x, src = tgt.id, it[:-len(".values()")]
+            elif it.endswith(".items()") and isinstance(tgt, ast.Tuple) and len(tgt.elts) == 2 and isinstance(tgt.elts[1], ast.Name):
+                x, src = tgt.elts[1].id, it[:-len(".items()")]
+            else:
+                raise Unsupported(f"{cn}.describe_state: comprehension over {it}")
+            lst = DESC_LISTS[cn].get(src)
+            if lst is None or _u(v.key) != f"{x}.name" or _u(v.value) != f"{x}.describe_state()":
+                raise Unsupported(f"{cn}.describe_state: comprehension {_u(v)[:70]}")
+            d = f"folderDescribeState {x}" if cn == "FileSystem" else f"{x}.id"
+            fields[fld] = f"pyDict ({lst}.map fun {x} => ({x}.name, {d}))"
+        elif cn == "FileSystem" and _u(v) in ("self.num_file_creations", "self.num_file_deletions"):
+            fields[fld] = "s.numCreations" if _u(v).endswith("creations") else "s.numDeletions"
+        else:
+            raise Unsupported(f"{cn}.describe_state: value {_u(v)[:70]}")
+    if set(fields) != set(DESC_FIELDS[cn].values()):
+        raise Unsupported(f"{cn}.describe_state: missing keys {sorted(set(DESC_FIELDS[cn].values()) - set(fields))}")
+    head = "{ id := g.id, " if cn == "Folder" else "{ "
+    return ["  " + head + ", ".join(f"{k} := {fields[k]}" for k in DESC_FIELDS[cn].values()) + " }", ""]
+
+
+def _describe_methods() -> List[str]:
+    from harness.extract.filesystem import FS, ITEM
+    # the uuid in a folder's / file's report comes from SimComponent.describe_state through FileSystemItemABC.describe_state
+    core = find_method(class_def(parse("simulator/core.py"), "SimComponent"), "describe_state")
+    if not any(isinstance(n, ast.Dict) and any(isinstance(k, ast.Constant) and k.value == "uuid" and _u(v) == "self.uuid" for k, v in zip(n.keys, n.values))
+               for n in ast.walk(core)):
+        raise Unsupported("SimComponent.describe_state does not report 'uuid': self.uuid")
+    item = find_method(class_def(parse(ITEM), "FileSystemItemABC"), "describe_state")
+    ib = [st for st in item.body if not _rskip(st)]
+    if not (_u(ib[0]) == "state = super().describe_state()" and _u(ib[-1]) == "return state"
+            and not any(isinstance(st, ast.Assign) and "uuid" in _u(st.targets[0]) for st in ib[1:-1])):
+        raise Unsupported("FileSystemItemABC.describe_state: frame")
+    L = ["/-- `Folder.describe_state`, translated onto the structural `FolderDesc` (a file's entry is abstracted to its uuid) -/",
+         "def folderDescribeState (g : Folder) : FolderDesc :="]
+    L += _describe("Folder", find_method(class_def(parse(FOLDER), "Folder"), "describe_state"))
+    L += ["/-- `FileSystem.describe_state`, translated onto the structural `Desc` -/", "def fsDescribeState (s : State) : Desc :="]
+    L += _describe("FileSystem", find_method(class_def(parse(FS), "FileSystem"), "describe_state"))
+    return L
+
+
+# ---------------------------------------------------------------------------------------------- request handlers and validators
+# The three handler closures of FileSystem._init_request_manager and the five validators, onto `State × Out` / `Bool`:
+#     request[i]                                  r0, r1 : Name;  r2 : Bool (its truthiness — the wire carries it as such)
+#     request[0] or '<lit>'                       (if r0 != "" then r0 else "<lit>")
+#     if <c>: return RequestResponse.from_bool(False)                   if c then (s, .failure) else …
+#     c: not request[2] | <c> and <c> | self.get_file(folder_name=A, file_name=B)  [truthiness = found]
+#        | not X (X an Optional local) | self.access_file(folder_name=A, file_name=B) [the TRANSLATED method: state and answer]
+#     X = self.get_file(folder_name=A, file_name=B)                     let X := fsGetFile s A B false
+#     X = self.create_file(folder_name=A, file_name=B, force=C)         match fsCreateFile s B A C with | (s, none) => (s, .raised) | (s, some X) => …
+#     X = self.create_folder(folder_name=A)                             let r := fsCreateFolder s A; s := r.1; X := r.2
+#     `if not X: return …` on a value that cannot be None (an object)   dead, dropped
+#     return RequestResponse(status='success', data={…})                (s, .success)        (the data only reads attributes)
+# validators: `if len(request) < k: return False` is recorded as the arity k (the model's operations always carry their options), then
+#     return <lookup> is not None  |  X = <lookup>; return X is not None and (not X.deleted)
+def _req(e: ast.AST) -> str:
+    if isinstance(e, ast.Subscript) and _u(e.value) == "request" and isinstance(e.slice, ast.Constant) and e.slice.value in (0, 1, 2):
+        return f"r{e.slice.value}"
+    if (isinstance(e, ast.BoolOp) and isinstance(e.op, ast.Or) and len(e.values) == 2 and isinstance(e.values[1], ast.Constant)
+            and isinstance(e.values[1].value, str) and e.values[1].value):
+        a = _req(e.values[0])
+        return f'(if {a} != "" then {a} else {json.dumps(e.values[1].value)})'
+    raise Unsupported("request option " + _u(e))
+
+
+def _kwargs(c: ast.Call, names) -> List[str]:
+    if c.args or [k.arg for k in c.keywords] != list(names):
+        raise Unsupported("handler call " + _u(c))
+    return [_req(k.value) for k in c.keywords]
+
+
+def _hcond(e: ast.AST, env: dict):
+    """-> (lean Bool expression, state-updating call or None)"""
+    if isinstance(e, ast.BoolOp) and isinstance(e.op, ast.And):
+        parts = [_hcond(v, env) for v in e.values]
+        if any(p[1] for p in parts):
+            raise Unsupported("state-changing call inside `and`")
+        return "(" + " && ".join(p[0] for p in parts) + ")", None
+    if isinstance(e, ast.UnaryOp) and isinstance(e.op, ast.Not):
+        if isinstance(e.operand, ast.Name) and env.get(e.operand.id) == "optfile":
+            return f"{e.operand.id}.isNone", None
+        if isinstance(e.operand, ast.Name) and env.get(e.operand.id) in ("file", "folder"):
+            return "false", None            # an object is truthy
+        if isinstance(e.operand, ast.Subscript):
+            r = _req(e.operand)
+            if r != "r2":
+                raise Unsupported("truthiness of a name option " + _u(e))
+            return "!r2", None
+        raise Unsupported("handler condition " + _u(e))
+    if isinstance(e, ast.Call) and _u(e.func) == "self.get_file":
+        a, b = _kwargs(e, ("folder_name", "file_name"))
+        return f"(fsGetFile s {a} {b} false).isSome", None
+    if isinstance(e, ast.Call) and _u(e.func) == "self.access_file":
+        a, b = _kwargs(e, ("folder_name", "file_name"))
+        return f"(fsAccessFile s {a} {b}).2", f"(fsAccessFile s {a} {b}).1"
+    raise Unsupported("handler condition " + _u(e))
+
+
+def _is_failure(st: ast.stmt) -> bool:
+    return isinstance(st, ast.Return) and _u(st.value) == "RequestResponse.from_bool(False)"
+
+
+def _hstmts(body: List[ast.stmt], env: dict, ind: int) -> str:
+    pad = "  " * ind
+    body = [st for st in body if not _rskip(st)]
+    if not body:
+        raise Unsupported("handler falls off the end")
+    st, rest = body[0], body[1:]
+    if _is_failure(st):
+        return pad + "(s, .failure)"
+    if isinstance(st, ast.Return):
+        c = st.value
+        if (isinstance(c, ast.Call) and _u(c.func) == "RequestResponse" and not c.args and [k.arg for k in c.keywords] == ["status", "data"]
+                and _u(c.keywords[0].value) == "'success'" and not any(isinstance(n, ast.Call) for n in ast.walk(c.keywords[1].value))):
+            return pad + "(s, .success)"
+        raise Unsupported("handler return " + _u(st)[:70])
+    if isinstance(st, ast.If) and not st.orelse and len([b for b in st.body if not _rskip(b)]) == 1:
+        inner = [b for b in st.body if not _rskip(b)][0]
+        cond, upd = _hcond(st.test, env)
+        if cond == "false":
+            return _hstmts(rest, env, ind)
+        if upd is None:
+            return pad + f"if {cond} then\n" + _hstmts([inner], env, ind + 1) + "\n" + pad + "else\n" + _hstmts(rest, env, ind + 1)
+        return (pad + f"let b := {cond}\n" + pad + f"let s := {upd}\n" + pad + "if b then\n" + _hstmts([inner], env, ind + 1) + "\n" + pad + "else\n"
+                + _hstmts(rest, env, ind + 1))
+    if isinstance(st, ast.Assign) and len(st.targets) == 1 and isinstance(st.targets[0], ast.Name) and isinstance(st.value, ast.Call):
+        x, c = st.targets[0].id, st.value
+        f = _u(c.func)
+        if f == "self.get_file":
+            a, b = _kwargs(c, ("folder_name", "file_name"))
+            return pad + f"let {x} := fsGetFile s {a} {b} false\n" + _hstmts(rest, dict(env, **{x: "optfile"}), ind)
+        if f == "self.create_file":
+            a, b, fc = _kwargs(c, ("folder_name", "file_name", "force"))
+            if fc != "r2":
+                raise Unsupported("force option " + _u(c))
+            return (pad + f"match fsCreateFile s {b} {a} {fc} with\n" + pad + "| (s, none) => (s, .raised)\n" + pad + f"| (s, some {x}) =>\n"
+                    + _hstmts(rest, dict(env, **{x: "file"}), ind + 1))
+        if f == "self.create_folder":
+            (a,) = _kwargs(c, ("folder_name",))
+            return (pad + f"let r := fsCreateFolder s {a}\n" + pad + "let s := r.1\n" + pad + f"let {x} := r.2\n"
+                    + _hstmts(rest, dict(env, **{x: "folder"}), ind))
+    raise Unsupported("handler statement " + _u(st)[:70])
+
+
+HANDLERS = [("_create_file_action", "hCreateFileAction", "(r0 r1 : Name) (r2 : Bool)"), ("_create_folder_action", "hCreateFolderAction", "(r0 : Name)"),
+            ("_access_file_action", "hAccessFileAction", "(r0 r1 : Name)")]
+VALIDATORS = [("FS", "FileSystem", "_FolderExistsValidator", "vFolderExists", "s", "(r0 : Name)"),
+              ("FS", "FileSystem", "_FolderNotDeletedValidator", "vFolderNotDeleted", "s", "(r0 : Name)"),
+              ("FS", "FileSystem", "_FileExistsValidator", "vFileExists", "s", "(r0 r1 : Name)"),
+              ("FOLDER", "Folder", "_FileExistsValidator", "vFolderFileExists", "g", "(r0 : Name)"),
+              ("FOLDER", "Folder", "_FileNotDeletedValidator", "vFolderFileNotDeleted", "g", "(r0 : Name)")]
+
+
+def _vlookup(e: ast.AST, v: str) -> str:
+    if not isinstance(e, ast.Call):
+        raise Unsupported("validator lookup " + _u(e))
+    f = _u(e.func)
+    kws = {k.arg: k.value for k in e.keywords}
+    if e.args:
+        raise Unsupported("validator lookup " + _u(e))
+    incl = _incl(kws.pop("include_deleted", None), {})
+    if v == "s" and f == "self.file_system.get_folder" and set(kws) == {"folder_name"}:
+        return f"getFolder s {_req(kws['folder_name'])} {incl}"
+    if v == "s" and f == "self.file_system.get_file" and set(kws) == {"folder_name", "file_name"}:
+        return f"fsGetFile s {_req(kws['folder_name'])} {_req(kws['file_name'])} {incl}"
+    if v == "g" and f == "self.folder.get_file" and set(kws) == {"file_name"}:
+        return f"g.getFile {_req(kws['file_name'])} {incl}"
+    raise Unsupported("validator lookup " + _u(e))
+
+
+def _handler_methods() -> List[str]:
+    from harness.extract.filesystem import FS
+    rels = {"FS": FS, "FOLDER": FOLDER}
+    irm = find_method(class_def(parse(FS), "FileSystem"), "_init_request_manager")
+    L: List[str] = []
+    for py, nm, binders in HANDLERS:
+        fns = [n for n in irm.body if isinstance(n, ast.FunctionDef) and n.name == py]
+        if len(fns) != 1 or [a.arg for a in fns[0].args.args] != ["request", "context"]:
+            raise Unsupported("handler " + py)
+        L += [f"/-- the request handler `{py}`, translated statement by statement -/", f"def {nm} (s : State) {binders} : State × Out :=",
+              _hstmts(list(fns[0].body), {}, 1), ""]
+    arities = []
+    for relname, cn, vn, nm, v, binders in VALIDATORS:
+        cls = [n for n in class_def(parse(rels[relname]), cn).body if isinstance(n, ast.ClassDef) and n.name == vn]
+        if len(cls) != 1:
+            raise Unsupported("validator " + vn)
+        fn = find_method(cls[0], "__call__")
+        body = [st for st in fn.body if not _rskip(st)]
+        k = 0
+        if body and isinstance(body[0], ast.If) and _u(body[0].test).startswith("len(request) < ") and len(body[0].body) == 1 and _u(body[0].body[0]) == "return False":
+            k = int(_u(body[0].test).split("<")[1])
+            body = body[1:]
+        arities.append((f"{cn}.{vn}", k))
+        V = "(s : State)" if v == "s" else "(g : Folder)"
+        if len(body) == 1 and isinstance(body[0], ast.Return) and isinstance(body[0].value, ast.Compare) and isinstance(body[0].value.ops[0], ast.IsNot) \
+                and _u(body[0].value.comparators[0]) == "None":
+            expr = f"({_vlookup(body[0].value.left, v)}).isSome"
+        elif (len(body) == 2 and isinstance(body[0], ast.Assign) and isinstance(body[0].targets[0], ast.Name) and isinstance(body[1], ast.Return)
+              and _u(body[1].value) == f"{body[0].targets[0].id} is not None and (not {body[0].targets[0].id}.deleted)"):
+            x = body[0].targets[0].id
+            expr = f"match {_vlookup(body[0].value, v)} with\n  | some {x} => !{x}.deleted\n  | none => false"
+        else:
+            raise Unsupported(f"validator {vn}: " + " ; ".join(_u(b) for b in body)[:90])
+        L += [f"/-- the validator `{cn}.{vn}`, translated -/", f"def {nm} {V} {binders} : Bool :=", "  " + expr, ""]
+    L += ["/-- the number of options each validator insists on before it looks anything up -/",
+          "def validatorArity : List (String × Nat) := [" + ", ".join(f"({json.dumps(a)}, {k})" for a, k in arities) + "]", ""]
+    return L
+
+
+# ---------------------------------------------------------------------------------------------- the routes of FileSystem._init_request_manager
+# Every `add_request(name, RequestType(func=…, validator=…))` of FileSystem._init_request_manager becomes a Lean function that composes the
+# TRANSLATED validator(s) with the TRANSLATED handler / method the route's func names:
+#     func = lambda request, context: RequestResponse.from_bool(self.<m>(folder_name=request[0][, file_name=request[1]]))
+#            with m in delete_file, delete_folder, restore_file, restore_folder           fromBool (<fs m> s r0 [r1])
+#     func = one of the translated handler closures                                          h… s r0 [r1 [r2]]
+#     func = a sub-manager / `_file_action`                                                  only the guard is emitted (route…Guard)
+#     validator = self._a [+ self._b]        (attributes bound in the same method: `self._a = FileSystem._XValidator(file_system=self)`)
+#                                                                                            if !(v… && v…) then (s, .failure) else …
+ROUTE_METHODS = {"delete_file": ("fsDeleteFile", 2), "delete_folder": ("fsDeleteFolder", 1), "restore_file": ("fsRestoreFile", 2),
+                 "restore_folder": ("fsRestoreFolder", 1)}
+
+
+def _route_methods() -> List[str]:
+    from harness.extract.filesystem import FS, _add_requests
+    irm = find_method(class_def(parse(FS), "FileSystem"), "_init_request_manager")
+    binds = {}
+    for st in irm.body:
+        if isinstance(st, ast.Assign) and isinstance(st.value, ast.Call) and "Validator" in _u(st.value.func):
+            if [k.arg for k in st.value.keywords] != ["file_system"] or _u(st.value.keywords[0].value) != "self" or st.value.args:
+                raise Unsupported("validator binding " + _u(st))
+            binds[_u(st.targets[0])] = _u(st.value.func)
+    vnames = {f"{cn}.{vn}": (nm, b.count("r")) for _, cn, vn, nm, v, b in VALIDATORS if v == "s"}
+    hnames = {py: (nm, b.count("r")) for py, nm, b in HANDLERS}
+    L: List[str] = []
+    seen = []
+    for mgr, name, func, val in _add_requests(irm):
+        guards = []
+        for part in [x.strip() for x in val.split("+")] if val else []:
+            cls = binds.get(part)
+            if cls is None or cls not in vnames:
+                raise Unsupported(f"route {mgr}/{name}: validator {part}")
+            guards.append(vnames[cls])
+        key = ("route" + "".join(w.capitalize() for w in (mgr.replace("self.", "").replace("_manager", "").strip("_") or "rm").split("_"))
+               + name.capitalize())
+        body = None
+        ar = max([a for _, a in guards], default=0)
+        f = ast.parse(func, mode="eval").body
+        if isinstance(f, ast.Lambda):
+            c = f.body
+            if not (isinstance(c, ast.Call) and _u(c.func) == "RequestResponse.from_bool" and len(c.args) == 1 and isinstance(c.args[0], ast.Call)
+                    and _u(c.args[0].func).startswith("self.") and _u(c.args[0].func)[5:] in ROUTE_METHODS):
+                raise Unsupported(f"route {mgr}/{name}: " + func[:80])
+            lean, n = ROUTE_METHODS[_u(c.args[0].func)[5:]]
+            args = _kwargs(c.args[0], ("folder_name", "file_name")[:n])
+            if args != [f"r{i}" for i in range(n)]:
+                raise Unsupported(f"route {mgr}/{name}: options {args}")
+            body, ar = f"fromBool ({lean} s {' '.join(args)})", max(ar, n)
+        elif func in hnames:
+            body, ar = f"{hnames[func][0]} s {' '.join('r%d' % i for i in range(hnames[func][1]))}", max(ar, hnames[func][1])
+        binders = " ".join(f"(r{i} : {'Bool' if i == 2 else 'Name'})" for i in range(ar))
+        g = " && ".join(f"{nm} s {' '.join('r%d' % i for i in range(a))}" for nm, a in guards)
+        if body is None:
+            if guards:
+                L += [f"/-- the guard of the route `{name}` of `{mgr}` (func `{func}`) -/", f"def {key}Guard (s : State) {binders} : Bool :=", f"  {g}", ""]
+                seen.append(key + "Guard")
+            continue
+        L += [f"/-- the route `{name}` of `{mgr}`: validator `{val or '-'}`, then `{func[:60]}` -/", f"def {key} (s : State) {binders} : State × Out :=",
+              (f"  if !({g}) then (s, .failure) else {body}" if guards else f"  {body}"), ""]
+        seen.append(key)
+    L += ["def routeNames : List String := [" + ", ".join(json.dumps(k) for k in seen) + "]", ""]
+    return ["/-- `RequestResponse.from_bool` -/", "def fromBool (r : State × Bool) : State × Out := (r.1, ofBool r.2)", ""] + L
+
+
+def _folder_route_methods() -> List[str]:
+    """The same for `Folder._init_request_manager` (two routes: `delete` = remove_file_by_name, `file` = the file's own manager behind two validators)."""
+    from harness.extract.filesystem import _add_requests
+    irm = find_method(class_def(parse(FOLDER), "Folder"), "_init_request_manager")
+    binds = {}
+    for st in irm.body:
+        if isinstance(st, ast.Assign) and isinstance(st.value, ast.Call) and "Validator" in _u(st.value.func):
+            if [k.arg for k in st.value.keywords] != ["folder"] or _u(st.value.keywords[0].value) != "self" or st.value.args:
+                raise Unsupported("validator binding " + _u(st))
+            binds[_u(st.targets[0])] = _u(st.value.func)
+    vnames = {f"{cn}.{vn}": nm for _, cn, vn, nm, v, b in VALIDATORS if v == "g"}
+    L: List[str] = []
+    rows = _add_requests(irm)
+    if sorted((m, n) for m, n, _, _ in rows) != [("rm", "delete"), ("rm", "file")]:
+        raise Unsupported("Folder._init_request_manager: routes " + str([(m, n) for m, n, _, _ in rows]))
+    for mgr, name, func, val in rows:
+        guards = []
+        for part in [x.strip() for x in val.split("+")] if val else []:
+            if binds.get(part) not in vnames:
+                raise Unsupported(f"folder route {name}: validator {part}")
+            guards.append(f"{vnames[binds[part]]} g r0")
+        if name == "delete":
+            f = ast.parse(func, mode="eval").body
+            ok = (isinstance(f, ast.Lambda) and isinstance(f.body, ast.Call) and _u(f.body.func) == "RequestResponse.from_bool" and len(f.body.args) == 1
+                  and isinstance(f.body.args[0], ast.Call) and _u(f.body.args[0].func) == "self.remove_file_by_name"
+                  and _kwargs(f.body.args[0], ("file_name",)) == ["r0"])
+            if not ok:
+                raise Unsupported("folder route delete: " + func[:80])
+            body = "((folderRemoveFileByName g r0).1, ofBool (folderRemoveFileByName g r0).2)"
+            L += ["/-- the route `delete` of a folder's request manager -/", "def folderRouteDelete (g : Folder) (r0 : Name) : Folder × Out :=",
+                  (f"  if !({' && '.join(guards)}) then (g, .failure) else {body}" if guards else f"  {body}"), ""]
+        else:
+            if func != "self._file_request_manager" or not guards:
+                raise Unsupported("folder route file: " + func[:80])
+            L += ["/-- the guard of the route `file` of a folder's request manager (func: the name-keyed manager of the files) -/",
+                  "def folderRouteFileGuard (g : Folder) (r0 : Name) : Bool :=", "  " + " && ".join(guards), ""]
+    return L
+
 LOOKUP_METHODS = [  # (class, method, lean name, kind, result, parameters (python name -> (lean binder, env kind)))
     ("Folder", "get_file", "folderGetFile", "folder", "optfile", [("file_name", "Name", None), ("include_deleted", "Bool", "bool")]),
     ("Folder", "remove_file", "folderRemoveFile", "folder", "unit", [("file", "File", "file")]),
     ("Folder", "remove_file_by_name", "folderRemoveFileByName", "folder", "bool", [("file_name", "Name", None)]),
     ("FileSystem", "get_folder", "fsGetFolder", "fs", "optfolder", [("folder_name", "Name", None), ("include_deleted", "Bool", "bool")]),
+    ("FileSystem", "get_file", "fsGetFile", "fs", "optfile", [("folder_name", "Name", "name"), ("file_name", "Name", "name"), ("include_deleted", "Bool", "bool")]),
+    ("FileSystem", "create_folder", "fsCreateFolder", "fs", "folder", [("folder_name", "Name", "name")]),
+    ("FileSystem", "create_file", "fsCreateFile", "fs", "file!", [("file_name", "Name", "name"), ("size", None, None), ("file_type", None, None),
+                                                                   ("folder_name", "Name", "name"), ("force", "Bool", "bool")]),
+    ("FileSystem", "pre_timestep", "fsPreTimestep", "fs", "unit", [("timestep", None, None)]),
+    ("FileSystem", "setup_for_episode", "fsSetupForEpisode", "fs", "unit", [("episode", None, None)]),
+    ("FileSystem", "__init__", "fsInitMethod", "fs", "unit", [("kwargs", None, None)]),
+    ("FileSystem", "access_file", "fsAccessFile", "fs", "bool", [("folder_name", "Name", "name"), ("file_name", "Name", "name")]),
     ("FileSystem", "delete_file", "fsDeleteFile", "fs", "bool", [("folder_name", "Name", None), ("file_name", "Name", None)]),
     ("FileSystem", "restore_file", "fsRestoreFile", "fs", "bool", [("folder_name", "Name", None), ("file_name", "Name", None)]),
     ("FileSystem", "restore_folder", "fsRestoreFolder", "fs", "bool", [("folder_name", "Name", "name")]),
     ("FileSystem", "delete_folder", "fsDeleteFolder", "fs", "bool", [("folder_name", "Name", "name")]),
+    # round 7, second batch: the uuid-keyed API and the loop of remove_all_files
+    ("Folder", "get_file_by_id", "folderGetFileById", "folder", "optfile", [("file_uuid", "Nat", "uuid"), ("include_deleted", "Bool", "bool")]),
+    ("Folder", "remove_file_by_id", "folderRemoveFileById", "folder", "unit!", [("file_uuid", "Nat", "uuid")]),
+    ("Folder", "remove_all_files", "folderRemoveAllFiles", "folder", "unit", []),
+    ("FileSystem", "get_folder_by_id", "fsGetFolderById", "fs", "optfolder", [("folder_uuid", "Nat", "uuid"), ("include_deleted", "Bool", "bool")]),
+    ("FileSystem", "delete_file_by_id", "fsDeleteFileById", "fs", "unit!", [("folder_uuid", "Nat", "uuid"), ("file_uuid", "Nat", "uuid")]),
+    ("FileSystem", "delete_folder_by_id", "fsDeleteFolderById", "fs", "unit!", [("folder_uuid", "Nat", "uuid")]),
+    ("FileSystem", "move_file", "fsMoveFile", "fs", "unit!", [("src_folder_name", "Name", "name"), ("src_file_name", "Name", "name"),
+                                                              ("dst_folder_name", "Name", "name")]),
+    ("FileSystem", "copy_file", "fsCopyFile", "fs", "unit!", [("src_folder_name", "Name", "name"), ("src_file_name", "Name", "name"),
+                                                              ("dst_folder_name", "Name", "name")]),
 ]
 RESULT_TYPE = {("folder", "optfile"): "Option File", ("folder", "unit"): "Folder", ("folder", "bool"): "Folder × Bool",
-               ("fs", "optfolder"): "Option Folder", ("fs", "bool"): "State × Bool"}
+               ("fs", "optfolder"): "Option Folder", ("fs", "bool"): "State × Bool", ("fs", "optfile"): "Option File",
+               ("fs", "folder"): "State × Folder", ("fs", "file!"): "State × Option File", ("fs", "unit"): "State",
+               ("fs", "unit!"): "State × Bool", ("folder", "unit!"): "Folder × Bool"}
 
 FILE_METHODS = [("restore", "fileRestore"), ("delete", "fileDelete"), ("scan", "fileScan"), ("repair", "fileRepair"),
                 ("corrupt", "fileCorrupt"), ("check_hash", "fileCheckHash")]
@@ -466,7 +1230,9 @@ FOLDER_METHODS = [("restore", "folderRestore"), ("delete", "folderDelete"), ("ch
 FOLDER_UNIT_METHODS = [("_restoring_timestep", "folderRestoringTimestep")]
 TRANSLATED = (["Folder.restore_file", "Folder.add_file"] + [f"File.{m}" for m, _ in FILE_METHODS]
               + [f"Folder.{m}" for m, _ in FOLDER_METHODS] + [f"Folder.{m}" for m, _ in FOLDER_UNIT_METHODS]
-              + [f"{c}.{m}" for c, m, *_ in LOOKUP_METHODS])
+              + [f"{c}.{m}" for c, m, *_ in LOOKUP_METHODS] + list(INERT_ATTRS)
+              + [f"{cn}.{m}" for _, cn, m, _ in INERT_METHODS] + ["Folder.apply_timestep", "FileSystem.apply_timestep", "Folder.describe_state", "FileSystem.describe_state",
+                 "FileSystem.scan", "FileSystem.reveal_to_red"])
 
 
 def emit() -> str:
@@ -493,15 +1259,23 @@ def emit() -> str:
               f"def {nm} (r : FolderRec) : FolderRec :=", _rstmts(list(fn.body), "g", 1, unit=True), ""]
     from harness.extract.filesystem import FS
     fsc = class_def(parse(FS), "FileSystem")
+    _check_inert_methods()
     for cn, m, nm, kind, res, params in LOOKUP_METHODS:
         fn = find_method(fo if cn == "Folder" else fsc, m)
-        if [a.arg for a in fn.args.args] != ["self"] + [p for p, _, _ in params]:
+        sig = [a.arg for a in fn.args.args] + ([fn.args.kwarg.arg] if fn.args.kwarg else [])
+        if sig != ["self"] + [p for p, _, _ in params]:
             raise Unsupported(f"signature of {cn}.{m}")
         env = {p: k for p, _, k in params if k}
-        binders = " ".join(f"({p} : {t})" for p, t, _ in params)
+        env["@method"] = m
+        binders = " ".join(f"({p} : {t})" for p, t, _ in params if t)
         V = "(g : Folder)" if kind == "folder" else "(s : State)"
         R += [f"/-- `{cn}.{m}`, translated statement by statement -/",
               f"def {nm} {V} {binders} : {RESULT_TYPE[(kind, res)]} :=", _lstmts(list(fn.body), kind, res, env, 1), ""]
+    R += _tick_methods()
+    R += _describe_methods()
+    R += _handler_methods()
+    R += _route_methods()
+    R += _folder_route_methods()
     L = ["import PrimaiteModel.Model.FileSystemHealth", "namespace Primaite.Gen.FileSystemMethods", "open Primaite.FileSystem", "",
          "/-- `Folder.restore_file`, translated statement by statement -/",
          "def folderRestoreFile (g : Folder) (file_name : Name) : Folder × Bool :=",
